@@ -21,7 +21,7 @@ def main():
     thorough = {}
     if tlog and os.path.exists(tlog):
         for l in open(tlog, errors="replace"):
-            m = re.match(r"(C\d\d) thorough seed=(\d+): evaluations=(\d+) .*wall=([0-9.]+)s", l)
+            m = re.search(r"(C\d\d) thorough seed=(\d+): evaluations=(\d+) .*wall=([0-9.]+)s", l)
             if m:
                 thorough[m.group(1)] = (int(m.group(3)), float(m.group(4)))
     muts = json.load(open(os.path.join(ROOT, "selftest", "mutants.json")))
